@@ -21,13 +21,13 @@ import (
 )
 
 type fakeCC struct {
-	done    chan struct{}
-	log     []uint64
-	handled map[uint64]int
-	waitFor map[uint64]uint64 // message -> later message its handler waits for (nested request); 99 = until the nested request is cancelled
+	done     chan struct{}
+	log      []uint64
+	handled  map[uint64]int
+	waitFor  map[uint64]uint64 // message -> later message its handler waits for (nested request); 99 = until the nested request is cancelled
 	released bool
-	r       **client.ReceivedMessageReader[*fakeCC]
-	blocked bool
+	r        **client.ReceivedMessageReader[*fakeCC]
+	blocked  bool
 }
 
 func (f *fakeCC) Done() <-chan struct{} { return f.done }
